@@ -12,7 +12,7 @@ STATS = {}
 
 SFX = {"I": "%", "L": "&", "S": "!", "D": "#"}
 TEXTNUM = ["0", "5", "-7", "32767", "32768", "-32768", "-32769", "70000", "2147483647", "2147483648", "-2147483648", "-2147483649",
-           "16777217", "1.23456789012", "0.1", "-0.3", "123456789.125", "99999999999999999999", "1e39", "-1e39", "1e309", "1d300"]
+           "", "abc", "-", "&H", "16777217", "1.23456789012", "0.1", "-0.3", "123456789.125", "99999999999999999999", "1e39", "-1e39", "1e309", "1d300"]
 
 
 def external_cases(pool):
@@ -44,6 +44,19 @@ def external_cases(pool):
         for op in ("B%s = A%s + A%s", "B%s = A%s * A%s", "B%s = 0 - A%s - A%s", "B%s = A%s / .0000001 + 0 * A%s", "B%s = A%s / .0000001",
                    "C%s = .0000001\r\nB%s = A%s / C%s", "B%s = -A%s / .0000001", "B%s = A%s * 100000000"):
             texts.append(("ext:float-overflow/op" + sf, big + (op % ((sf,) * op.count("%s"))) + '\r\nPRINT "ok"\r\n', ""))
+    # a function that is not defined anywhere, of every type, as an operand: the result is of the type the checker gave it
+    for tt, sf in SFX.items():
+        for e in ("UNDEF%s(1) + 32767", "UNDEF%s(1) * 2 + 40000", "1 + UNDEF%s(2)", "UNDEF%s(1)"):
+            texts.append(("ext:undefined-function/" + tt, ("T%s = " % sf) + (e % sf) + '\r\nPRINT "ok"\r\n', ""))
+    # MOD (and /) of values at the type boundaries stored into every type: what is stored is judged by the monitor alone
+    big = ["2000000&", "1500000&", "40000&", "32767", "-32768", "70000.5", "3", "-2147483647&"]
+    for tt, sf in SFX.items():
+        for a in big:
+            for b_ in big:
+                for op in ("MOD", "/"):
+                    aa = a.replace("&", "")
+                    bb = b_.replace("&", "")
+                    texts.append(("ext:mod-div/" + tt, "A# = %s\r\nB# = %s\r\nLA& = A#\r\nLB& = B#\r\nT%s = LA& %s LB&\r\nPRINT \"ok\"\r\n" % (aa, bb, sf, op), ""))
     texts.append(("ext:float-overflow/mixed", 'A# = 10\r\nFOR I% = 1 TO 60\r\n  A# = A# * 10\r\nNEXT\r\nB! = A#\r\nC! = 1\r\nC! = C! * A#\r\nPRINT "ok"\r\n', ""))
     reqs = [{"op": "run", "text": t, "stdin": si, "budget": 100000, "dump_final": True, "dumps": True, "max_dumps": 20} for _, t, si in texts]
     resps = pool.map(reqs, timeout=30.0)
